@@ -12,6 +12,13 @@
 #define W(n)     w_##n
 #define SNAME    "wstring"
 #define CH_C     ((wchar_t)0x1F600)
+#if WCHAR_MIN < 0
+#define CH_NEG   ((wchar_t)-2)              /* below every other character for wcscmp */
+#else
+#define CH_NEG   ((wchar_t)(WCHAR_MAX - 1))
+#endif
+/* variant 1: the extremes of wchar_t (wcscmp must order them as wchar_t, a difference overflows) */
+#define ALPHA1   { WCHAR_MAX, CH_NEG, 'a', 0 }
 #else
 #define SX(n)    cstl_string_##n
 #define STRUCT   struct cstl_string
@@ -20,15 +27,25 @@
 #define W(n)     n_##n
 #define SNAME    "string"
 #define CH_C     ((char)0xe9)
+/* variant 1: ASCII next to 0xFF and 0xE9 (strcmp orders bytes as unsigned char) */
+#define ALPHA1   { 'a', (char)0xff, (char)0xe9, 0 }
 #endif
 #define CW       (sizeof(CH))
 #define KEY(k)   SNAME "." k
 
 /* alphabet: index 3 is the NUL character (only used as a search argument) */
-static const CH W(alpha)[4] = { 'a', 'b', CH_C, 0 };
+static const CH W(alphas)[NVARIANTS][4] = { { 'a', 'b', CH_C, 0 }, ALPHA1 };
+static const CH *W(alpha) = W(alphas)[0];
 
-static CH *W(raw)[NRAW];
+static CH *W(raws)[NVARIANTS][NRAW];
+static CH **W(raw) = W(raws)[0];
 static size_t W(rawlen)[NRAW];
+
+static void W(set_variant)(int v)
+{
+    W(alpha) = W(alphas)[v];
+    W(raw) = W(raws)[v];
+}
 
 struct W(ref) { CH *c; size_t n; };
 static STRUCT W(S)[2];
@@ -36,13 +53,13 @@ static struct W(ref) W(R)[2];
 
 static void W(init_raws)(void)
 {
-    int i;
-    for (i = 0; i < NRAW; i++) {
+    int i, v;
+    for (v = 0; v < NVARIANTS; v++) for (i = 0; i < NRAW; i++) {
         size_t n = strlen(rawtmpl[i]), j;
         /* exact-size block: a read past the terminator is an ASan report */
-        W(raw)[i] = vrt_alloc((n + 1) * CW);
-        for (j = 0; j < n; j++) W(raw)[i][j] = W(alpha)[rawtmpl[i][j] - 'a'];
-        W(raw)[i][n] = 0;
+        W(raws)[v][i] = vrt_alloc((n + 1) * CW);
+        for (j = 0; j < n; j++) W(raws)[v][i][j] = W(alphas)[v][rawtmpl[i][j] - 'a'];
+        W(raws)[v][i][n] = 0;
         W(rawlen)[i] = n;
     }
 }
@@ -556,7 +573,8 @@ static int W(do_op)(int kind, int d, size_t pos, size_t cnt, int aux, int audit)
                          "find_ch(ch#%d, pos=%zu) = %ld, C library on the same characters: %ld (size %zu)",
                          aux & 3, pos, (long)rv, want, size);
             if (pos == size) VRT_COUNT("tolerated.find_ch.pos==size.natural");
-            else if (want >= 0) VRT_COUNT("find_ch.found"); else VRT_COUNT("find_ch.not-found");
+            else if (want >= 0) { VRT_COUNT("find_ch.found"); if (ch < 0) VRT_COUNT("find_ch.negative-char.found"); }
+            else VRT_COUNT("find_ch.not-found");
         }
         audit = 0;
         break;
@@ -592,7 +610,10 @@ static int W(do_op)(int kind, int d, size_t pos, size_t cnt, int aux, int audit)
             if (pos == size) {
                 if (kind == K_FIND_STR) VRT_COUNT("tolerated.find_str.pos==size.natural");
                 else VRT_COUNT("tolerated.find.pos==size.natural");
-            } else if (want >= 0) VRT_COUNT("find_str+find.found"); else VRT_COUNT("find_str+find.not-found");
+            } else if (want >= 0) {
+                VRT_COUNT("find_str+find.found");
+                if (ndl[0] < 0) VRT_COUNT("find_str.needle-with-negative-char.found");
+            } else VRT_COUNT("find_str+find.not-found");
         }
         audit = 0;
         break;
@@ -616,6 +637,8 @@ static int W(do_op)(int kind, int d, size_t pos, size_t cnt, int aux, int audit)
             vrt_fail(kind == K_COMPARE_STR ? KEY("compare_str.disagrees-with-libc") : KEY("compare.disagrees-with-libc"),
                      "compare = %d, C library on the same characters has sign %d", (int)irv, want);
         if (want == 0) VRT_COUNT("compare.equal"); else VRT_COUNT("compare.unequal");
+        /* top-bit byte vs ASCII / negative vs positive wchar_t: a plain difference has the wrong sign or overflows */
+        if (r->c[0] != other[0] && (r->c[0] < 0) != (other[0] < 0)) VRT_COUNT("compare.first-chars-differ-in-sign");
         audit = 0;
         break;
     }
@@ -713,6 +736,8 @@ static void W(make_class)(int k, int cls)
 #undef W
 #undef SNAME
 #undef CH_C
+#undef CH_NEG
+#undef ALPHA1
 #undef CW
 #undef KEY
 #undef BEYOND
